@@ -14,7 +14,10 @@
      IAcc3       accept(): drop(record)                                      (commit a2ffe27; without it the clone lives until accept returns)
      IAcc4       accept(): remove the registry entry
      IAcc5       accept(): receiver.recv() - the first message; 'closed' if the queue is empty and no sender is left; blocks otherwise
-     IRecv       the receiver returned by accept: next message / Empty / Disconnected (try_recv flavour, never blocks) *)
+     IRecv       the receiver returned by accept: next message / Empty / Disconnected (try_recv flavour, never blocks)
+     IDropSrv    the server object is dropped unaccepted (its receiver is dropped with it; the registry entry - and its sender - stay)
+     IDropRx     the receiver returned by accept is dropped
+   A send succeeds (and queues) exactly while the receiving end exists. *)
 From Coq Require Import List Arith Bool.
 Import ListNotations.
 
@@ -31,34 +34,52 @@ Record st := {
   queue : list nat;
   sent : list nat;          (* ghost *)
   got : list nat;           (* ghost: accept's first message, then what the receiver read *)
-  obs : list robs }.        (* ghost: answers of the receiver after accept *)
+  obs : list robs;          (* ghost: answers of the receiver after accept *)
+  rxlive : bool;            (* the receiving end exists (in the server object, or handed out by accept) *)
+  sres : list bool }.       (* ghost: results of the clients' sends, in order (true = Ok) *)
 
 Definition init : st :=
-  {| created := false; reg := false; tokens := 0; phase := PIdle; clients := 0; nconn := 0; queue := []; sent := []; got := []; obs := [] |}.
+  {| created := false; reg := false; tokens := 0; phase := PIdle; clients := 0; nconn := 0; queue := []; sent := []; got := []; obs := [];
+     rxlive := false; sres := [] |}.
 
 (* does accept() currently hold its own clone of the record (and with it a sender)? *)
 Definition holds_clone (p : aphase) : bool := match p with PCloned | PToken => true | _ => false end.
 (* all references to the sending end of the rendezvous channel *)
 Definition senders (s : st) : nat := (if reg s then 1 else 0) + (if holds_clone (phase s) then 1 else 0) + clients s.
 
-Inductive label := INew | IConnect | IClone | IDropTx | ISend (x : nat) | IAcc1 | IAcc2 | IAcc3 | IAcc4 | IAcc5 | IRecv.
+Inductive label := INew | IConnect | IClone | IDropTx | ISend (x : nat) | IAcc1 | IAcc2 | IAcc3 | IAcc4 | IAcc5 | IRecv
+                   | IDropSrv     (* the server object is dropped without accept() ever being called: its receiver goes, the registry entry stays *)
+                   | IDropRx.     (* the receiver returned by accept is dropped *)
 
 Definition upd (s : st) (r : bool) (t : nat) (p : aphase) (c : nat) (q sn g : list nat) (o : list robs) : st :=
-  {| created := created s; reg := r; tokens := t; phase := p; clients := c; nconn := nconn s; queue := q; sent := sn; got := g; obs := o |}.
+  {| created := created s; reg := r; tokens := t; phase := p; clients := c; nconn := nconn s; queue := q; sent := sn; got := g; obs := o;
+     rxlive := rxlive s; sres := sres s |}.
+(* a send that finds no receiving end: BrokenPipe, nothing queued *)
+Definition refused (s : st) : st :=
+  {| created := created s; reg := reg s; tokens := tokens s; phase := phase s; clients := clients s; nconn := nconn s; queue := queue s;
+     sent := sent s; got := got s; obs := obs s; rxlive := rxlive s; sres := sres s ++ [false] |}.
+Definition accepted_send (s : st) : st :=
+  {| created := created s; reg := reg s; tokens := tokens s; phase := phase s; clients := clients s; nconn := nconn s; queue := queue s;
+     sent := sent s; got := got s; obs := obs s; rxlive := rxlive s; sres := sres s ++ [true] |}.
+Definition set_rx (s : st) (b : bool) : st :=
+  {| created := created s; reg := reg s; tokens := tokens s; phase := phase s; clients := clients s; nconn := nconn s; queue := queue s;
+     sent := sent s; got := got s; obs := obs s; rxlive := b; sres := sres s |}.
 
 Definition step (s : st) (l : label) : option st :=
   match l with
   | INew => if created s then None else
-      Some {| created := true; reg := true; tokens := 0; phase := PIdle; clients := 0; nconn := 0; queue := []; sent := []; got := []; obs := [] |}
+      Some {| created := true; reg := true; tokens := 0; phase := PIdle; clients := 0; nconn := 0; queue := []; sent := []; got := []; obs := [];
+              rxlive := true; sres := [] |}
   | IConnect => if reg s then
       Some {| created := created s; reg := true; tokens := S (tokens s); phase := phase s; clients := S (clients s); nconn := S (nconn s);
-              queue := queue s; sent := sent s; got := got s; obs := obs s |} else None
+              queue := queue s; sent := sent s; got := got s; obs := obs s; rxlive := rxlive s; sres := sres s |} else None
       (* connect to a name that is not (or no longer) registered: `.get(&name).unwrap()` - outside the model *)
   | IClone => match clients s with O => None | S _ => Some (upd s (reg s) (tokens s) (phase s) (S (clients s)) (queue s) (sent s) (got s) (obs s)) end
   | IDropTx => match clients s with O => None | S c => Some (upd s (reg s) (tokens s) (phase s) c (queue s) (sent s) (got s) (obs s)) end
   | ISend x => match clients s with O => None | S _ =>
-                 Some (upd s (reg s) (tokens s) (phase s) (clients s) (queue s ++ [x]) (sent s ++ [x]) (got s) (obs s)) end
-  | IAcc1 => match phase s with PIdle => if reg s then Some (upd s true (tokens s) PCloned (clients s) (queue s) (sent s) (got s) (obs s)) else None | _ => None end
+                 if rxlive s then Some (accepted_send (upd s (reg s) (tokens s) (phase s) (clients s) (queue s ++ [x]) (sent s ++ [x]) (got s) (obs s)))
+                 else Some (refused s) end
+  | IAcc1 => match phase s with PIdle => if reg s && rxlive s then Some (upd s true (tokens s) PCloned (clients s) (queue s) (sent s) (got s) (obs s)) else None | _ => None end
   | IAcc2 => match phase s, tokens s with
              | PCloned, S t => Some (upd s (reg s) t PToken (clients s) (queue s) (sent s) (got s) (obs s))
              | _, _ => None end                    (* no token: record.accept() blocks *)
@@ -72,13 +93,15 @@ Definition step (s : st) (l : label) : option st :=
                  end
              | _ => None end
   | IRecv => match phase s with
-             | PDoneOk =>
+             | PDoneOk => if negb (rxlive s) then None else
                  match queue s with
                  | x :: q => Some (upd s (reg s) (tokens s) PDoneOk (clients s) q (sent s) (got s ++ [x]) (obs s ++ [OMsg x]))
                  | [] => Some (upd s (reg s) (tokens s) PDoneOk (clients s) [] (sent s) (got s)
                                    (obs s ++ [if Nat.eqb (senders s) 0 then ODisc else OEmpty]))
                  end
              | _ => None end
+  | IDropSrv => match phase s with PIdle => if created s && rxlive s then Some (set_rx s false) else None | _ => None end
+  | IDropRx => match phase s with PDoneOk => if rxlive s then Some (set_rx s false) else None | _ => None end
   end.
 
 Fixpoint run (s : st) (ls : list label) : option st :=
